@@ -154,7 +154,7 @@ def vp_assert(ex, st, fr, ins, args):
     if cs is False:
         ex.add_obligation(st, label, None, line=ins.get('line'))
         raise PathEnd('assert-false')
-    ex.add_obligation(st, label, z3.Not(cs), line=ins.get('line'))
+    ex.add_obligation(st, label, z3.Not(c), line=ins.get('line'))
     # continue under the assertion (no feasibility check: an infeasible
     # continuation only produces vacuous obligations)
     ex.add_pc(st, cs)
@@ -487,3 +487,32 @@ def vp_note(ex, st, fr, ins, args):
 @intercept('vph/vp.AbsF32')
 def vp_absf32(ex, st, fr, ins, args):
     return fpops.fabs(args[0])
+
+
+@intercept('vph/vp.ExactBegin')
+def vp_exact_begin(ex, st, fr, ins, args):
+    if CTX.mode == 'R':
+        CTX.mode = 'Rx'
+    return None
+
+
+@intercept('vph/vp.ExactEnd')
+def vp_exact_end(ex, st, fr, ins, args):
+    if CTX.mode == 'Rx':
+        CTX.mode = 'R'
+    return None
+
+
+@intercept('vph/vp.Check')
+def vp_check(ex, st, fr, ins, args):
+    c = args[0]
+    label = _name(args[1])
+    cs = ex.simp(c)
+    if cs is True:
+        ex.res.folded += 1
+        return None
+    if cs is False:
+        ex.add_obligation(st, label, None, line=ins.get('line'))
+        return None
+    ex.add_obligation(st, label, z3.Not(c), line=ins.get('line'))
+    return None
